@@ -16,6 +16,7 @@ import (
 	"log"
 	"net/http"
 	"os"
+	"runtime"
 	"sort"
 	"strings"
 	"sync"
@@ -48,24 +49,25 @@ func init() {
 
 // fakeProxy is a scripted RoundTripper playing the inverting proxy.
 type fakeProxy struct {
-	mu         sync.Mutex
-	lists      [][]string       // scripted replies to pending-list calls, in order
-	listFail   []bool           // per list call: fail instead of replying (transport error)
-	listTimes  []time.Time      // arrival time of every list call
-	listCalls  int
-	fetchFail  map[string]int   // request id -> number of fetch attempts to fail (500)
-	fetches    map[string]int   // request id -> fetch attempts seen
-	user       map[string]string
-	reqText    func(id string) string
-	uploads    map[string][]byte // request id -> uploaded response bytes
-	uploadCnt  map[string]int
-	exhausted  chan struct{}     // closed when the list script is used up
-	onExhaust  sync.Once
-	hold       chan struct{}     // list calls beyond the script block here
+	mu        sync.Mutex
+	lists     [][]string  // scripted replies to pending-list calls, in order
+	listFail  []bool      // per list call: fail instead of replying (transport error)
+	listTimes []time.Time // arrival time of every list call
+	listCalls int
+	fetchFail map[string]int            // request id -> number of fetch attempts to fail (500)
+	spawnG    map[string]map[string]int // request id -> goroutine that fetched it -> its attempts (RoundTrip runs on the goroutine of processOneRequest, so one goroutine = one spawn)
+	fetches   map[string]int            // request id -> fetch attempts seen
+	user      map[string]string
+	reqText   func(id string) string
+	uploads   map[string][]byte // request id -> uploaded response bytes
+	uploadCnt map[string]int
+	exhausted chan struct{} // closed when the list script is used up
+	onExhaust sync.Once
+	hold      chan struct{} // list calls beyond the script block here
 }
 
 func newFakeProxy() *fakeProxy {
-	return &fakeProxy{fetchFail: map[string]int{}, fetches: map[string]int{}, user: map[string]string{}, uploads: map[string][]byte{}, uploadCnt: map[string]int{},
+	return &fakeProxy{spawnG: map[string]map[string]int{}, fetchFail: map[string]int{}, fetches: map[string]int{}, user: map[string]string{}, uploads: map[string][]byte{}, uploadCnt: map[string]int{},
 		exhausted: make(chan struct{}), hold: make(chan struct{}),
 		reqText: func(id string) string { return "GET /" + id + " HTTP/1.1\r\nHost: backend.example\r\n\r\n" }}
 }
@@ -107,6 +109,10 @@ func (p *fakeProxy) RoundTrip(r *http.Request) (*http.Response, error) {
 		p.mu.Lock()
 		p.fetches[id]++
 		n := p.fetches[id]
+		if p.spawnG[id] == nil {
+			p.spawnG[id] = map[string]int{}
+		}
+		p.spawnG[id][goid()]++
 		failN := p.fetchFail[id]
 		user := p.user[id]
 		p.mu.Unlock()
@@ -267,16 +273,26 @@ func suiteDedup(e *vh.Env) {
 		h.mu.Lock()
 		for x, c := range fp.fetches {
 			ff := fp.fetchFail[x]
-			per := 1 + ff
-			if per > 1+utils.VerifMaxReadRequestRetryCount {
-				per = 1 + utils.VerifMaxReadRequestRetryCount
-			}
-			spawns := c / per
-			if c%per != 0 {
-				e.Fail("C04:fetch-attempts", fmt.Sprintf("id %s: %d fetch attempts with %d scripted failures", x, c, ff), i, nil, nil, nil)
-			}
-			for k := 0; k < spawns; k++ {
+			// one spawn makes at most 1 + maxRetry attempts; all spawns together exactly (scripted failures met) + (successes)
+			sum := 0
+			for g, a := range fp.spawnG[x] {
+				sum += a
+				if a > 1+utils.VerifMaxReadRequestRetryCount {
+					e.Fail("C04:fetch-attempts", fmt.Sprintf("id %s: goroutine %s made %d fetch attempts (limit %d)", x, g, a, 1+utils.VerifMaxReadRequestRetryCount), i, nil, nil, nil)
+				}
 				spawned = append(spawned, x)
+			}
+			if sum != c {
+				e.Fail("C04:fetch-attempts", fmt.Sprintf("id %s: %d fetch attempts, %d attributed to spawns", x, c, sum), i, nil, nil, nil)
+			}
+			if len(fp.spawnG[x]) == 1 {
+				per := 1 + ff
+				if per > 1+utils.VerifMaxReadRequestRetryCount {
+					per = 1 + utils.VerifMaxReadRequestRetryCount
+				}
+				if c != per {
+					e.Fail("C04:fetch-attempts", fmt.Sprintf("id %s: one spawn made %d fetch attempts with %d scripted failures, expected %d", x, c, ff, per), i, nil, nil, nil)
+				}
 			}
 			// oracle (property): forwarded at most once; exactly once when the fetch is eventually served
 			inv := h.calls[x]
@@ -310,6 +326,16 @@ func suiteDedup(e *vh.Env) {
 			e.Sample(map[string]interface{}{"case": i, "universe": universe, "list_replies": len(fp.lists), "first_reply": truncate(fp.lists[0], 6), "repeats": repeats})
 		}
 	}
+}
+
+// goid: the current goroutine's number, from the first line of its stack ("goroutine 123 [running]:").
+func goid() string {
+	var b [64]byte
+	f := strings.Fields(string(b[:runtime.Stack(b[:], false)]))
+	if len(f) >= 2 {
+		return f[1]
+	}
+	return "?"
 }
 
 func truncate(xs []string, n int) []string {
